@@ -9,4 +9,5 @@ REPO="${SLV_REPO:-/repo}"
 sed "s#@REPO@#$REPO#g" harness/Cargo.toml.in > harness/Cargo.toml
 cp -f "$REPO/Cargo.lock" harness/Cargo.lock
 ( cd harness && RUSTFLAGS="--cfg searchlite_verif" CARGO_TARGET_DIR="${SLV_TARGET:-$PWD/../.cache/target}" timeout 3000 cargo build --offline --bins )
+( cd "$REPO" && CARGO_TARGET_DIR="${SLV_CLI_TARGET:-${SLV_TARGET:-$OLDPWD/.cache/target}-cli}" timeout 3000 cargo build --offline -p searchlite-cli )
 echo "setup ok"
